@@ -203,6 +203,13 @@ def cases(draw):
     else:
         r = draw(st.one_of(st.sampled_from([1, 2, 3, 5, 10, 17, 64, 100, 1000]), st.integers(1, 40),
                            st.integers(1, 1000)))
+    if acts and not translate and draw(st.integers(0, 4)) == 0:
+        # a second term with the same name and class whose parameters differ only from the 4th decimal on
+        a0 = draw(st.sampled_from(acts))
+        if a0["term"]["cls"] != "Discrete" and all(math.isfinite(v) for v in a0["term"]["p"]):
+            twin = refmath.translate(a0["term"], draw(st.sampled_from([0.0004, 0.0002, -0.0003])))
+            acts.append({"term": twin, "degree": draw(st.lists(deg, min_size=m, max_size=m)) if batch else draw(deg),
+                         "implication": a0["implication"]})
     case = {"min": lo, "max": hi, "resolution": r, "aggregation": draw(st.sampled_from(refmath.SNORMS)), "acts": acts}
     case["own_bounds"] = draw(st.sampled_from([None, None, None, "nan", "narrow", "wide"]))
     if draw(st.integers(0, 3)) == 0:
@@ -213,7 +220,23 @@ def cases(draw):
     return case
 
 
+def integer_range_corpus():
+    """Every range [a, b] with integer bounds in -3..3 at resolutions 1, 2, 10, one after the other in one process
+    (a fixed triangle spanning the range, clipped): the sample points belong to the range at hand."""
+    out = []
+    for r in (1, 2, 10):
+        for a in range(-3, 4):
+            for b in range(a + 1, 4):
+                t = {"cls": "Triangle", "p": [float(a), a + 0.25 * (b - a), float(b)], "h": 1.0, "name": "t"}
+                out.append({"min": float(a), "max": float(b), "resolution": r, "aggregation": "Maximum",
+                            "acts": [{"term": t, "degree": 0.75, "implication": "Minimum"}]})
+    return out
+
+
 def shard(ctx, shard, nshards, ex):
+    if shard <= 1:
+        ctx.direct("set", check_set, integer_range_corpus())
+        ctx.cls("integer_range_corpus", 63)
     ctx.hyp("set", cases(), check_set, ex)
 
 
